@@ -212,6 +212,37 @@ pub fn world_from(bp: &Blueprint, ports: &HostPorts, rt_seed: u64) -> World {
     w
 }
 
+/// The documented per-game view of a protocol-level Valve response (both as JSON).
+fn game_json_from_valve_json(v: &Value) -> Value {
+    let info = &v["info"];
+    let extra = |k: &str| info["extra_data"].get(k).cloned().unwrap_or(Value::Null);
+    let players: Vec<Value> = v["players"]
+        .as_array()
+        .map(|a| a.iter().map(|p| json!({"name": p["name"], "score": p["score"], "duration": p["duration"]})).collect())
+        .unwrap_or_default();
+    json!({
+        "protocol": info["protocol_version"],
+        "name": info["name"],
+        "map": info["map"],
+        "game": info["game_mode"],
+        "appid": info["appid"],
+        "players_online": info["players_online"],
+        "players_details": players,
+        "players_maximum": info["players_maximum"],
+        "players_bots": info["players_bots"],
+        "server_type": info["server_type"],
+        "has_password": info["has_password"],
+        "vac_secured": info["vac_secured"],
+        "version": info["game_version"],
+        "port": extra("port"),
+        "steam_id": extra("steam_id"),
+        "tv_port": extra("tv_port"),
+        "tv_name": extra("tv_name"),
+        "keywords": extra("keywords"),
+        "rules": if v["rules"].is_object() { v["rules"].clone() } else { json!({}) },
+    })
+}
+
 /// (module-level entry, protocol-level entry) for a definition.
 fn paths(id: &'static str, game: &Game) -> (Option<Entry>, Option<Entry>) {
     // modules are matched by id, else by the game's full name (ut2004 <-> unrealtournament2004)
@@ -454,11 +485,11 @@ impl Prop for C14 {
                 compare("module", &ob, &mut out);
                 if let (Some(Ok(Resp::ValveGame(g))), Some(o)) = (&rb.result, &oc) {
                     if let Some(spec) = &o.specific {
-                        if let Ok(vr) = serde_json::from_value::<gamedig::protocols::valve::Response>(spec.clone()) {
-                            let conv = gamedig::protocols::valve::game::Response::new_from_valve_response(vr);
-                            if let Some((p, e2, o2)) = json_diff(&serde_json::to_value(&conv).unwrap(), &serde_json::to_value(g).unwrap()) {
-                                out.violate(Violation::new(format!("{id}|module|game-response"), format!("module vs protocol: per-game response differs at {p}"), e2, o2));
-                            }
+                        // the per-game view of the protocol path's response, field by field (not through the
+                        // library's own conversion, which is part of what is being compared)
+                        let conv = game_json_from_valve_json(spec);
+                        if let Some((p, e2, o2)) = json_diff(&conv, &serde_json::to_value(g).unwrap()) {
+                            out.violate(Violation::new(format!("{id}|module|game-response"), format!("module vs protocol: per-game response differs at {p}"), e2, o2));
                         }
                     }
                 }
